@@ -22,6 +22,10 @@ package backend
 //@   ensures {C13} [empty-header] acceptRange == "" ==> err == nil && !ret2
 //@   ensures {C13} [interval-open] err == nil && ret2 && lastTxt == "" ==> ret0 == first && ret1 == size - first
 //@   ensures {C13} [interval-closed] err == nil && ret2 && lastTxt != "" ==> ret0 == first && ret1 == min(last, size - 1) - first + 1
+//@   let wellFormedStart = acceptRange != "" && len(strings.Split(acceptRange, "=")) == 2 && strings.Split(acceptRange, "=")[0] == "bytes" \
+//@        && len(strings.Split(spec, "-")) == 2 && strconv.ParseInt(strings.Split(spec, "-")[0], 10, 64).1 == nil
+//@   ensures {C13} [closed-range-is-served] wellFormedStart && first < size && lastTxt != "" && strconv.ParseInt(lastTxt, 10, 64).1 == nil && first <= last ==> err == nil && ret2
+//@   ensures {C13} [open-range-is-served] wellFormedStart && first < size && lastTxt == "" ==> err == nil && ret2
 //@   ensures {C13} [beyond-end] acceptRange != "" && len(strings.Split(acceptRange, "=")) == 2 && strings.Split(acceptRange, "=")[0] == "bytes" && len(strings.Split(spec, "-")) == 2 \
 //@        && strconv.ParseInt(strings.Split(spec, "-")[0], 10, 64).1 == nil && first >= size ==> err != nil
 
